@@ -82,7 +82,7 @@ def matches(exp, out):
 
 def _match_plain(exp, out):
     if isinstance(exp, dict) and "rej" in exp:
-        return isinstance(out, dict) and "exc" in out and out["exc"] in exp["rej"]
+        return isinstance(out, dict) and "exc" in out and (out["exc"] in exp["rej"] or "*" in exp["rej"])
     return exp == out
 
 
@@ -436,6 +436,8 @@ class Ctx:
         vector is printed by the spec as "EMIT {op,a,o}"; each is executed on the real code
         and compared with the specification's expectation o."""
         wd = self.workdir(f"mc-{label}")
+        if module == "MC_Codec":
+            consts = (consts or "") + f'\nCONSTANT Tier = "{self.tier}"'
         if consts:
             with open(os.path.join(wd, cfg), "a") as f:
                 f.write("\n" + consts + "\n")
